@@ -75,6 +75,33 @@ func runC04(c *Ctx) {
 	r.Rule("create", "host creation sites carry the discovery conditions of their family", 12)
 	r.Rule("online", "online transition and sibling-offline conditions", 20)
 	r.Rule("ageing", "purge selections and deletion conditions", 5)
+	// a frame from a tracked host refreshes the host's own LastSeen wherever it refreshes the station's: in
+	// findOrCreateHostWithLock every store to MACEntry.LastSeen has a store to the host's LastSeen in the same block (a
+	// refresh "only while online" leaves a host that comes back with the timestamp it went offline with)
+	if fn := c.A.Method("", "Session", "findOrCreateHostWithLock"); fn != nil {
+		n := 0
+		core.EachInstr(fn, func(i ssa.Instruction) {
+			st, ok := i.(*ssa.Store)
+			if !ok || !strings.HasSuffix(norm(st.Addr), ".MACEntry.LastSeen") {
+				return
+			}
+			hostAddr := strings.TrimSuffix(norm(st.Addr), ".MACEntry.LastSeen") + ".LastSeen"
+			n++
+			paired := false
+			for _, j := range i.Block().Instrs {
+				if s2, ok := j.(*ssa.Store); ok && norm(s2.Addr) == hostAddr && norm(s2.Val) == norm(st.Val) {
+					paired = true
+				}
+			}
+			stt, det := core.Proved, ""
+			if !paired {
+				stt = core.Violated
+				det = "findOrCreateHostWithLock refreshes " + norm(st.Addr) + " without refreshing " + hostAddr + " on the same path: a host that was offline and is seen again keeps its old LastSeen, is marked offline again at the next purge and deleted later although it was seen moments ago"
+			}
+			r.Add(core.Obligation{Rule: "ageing", Key: fmt.Sprintf("ageing findOrCreateHostWithLock refresh %d stamps the host with the station", n), Func: core.FuncName(fn), Pos: c.P.Pos(core.PosOf(i)), Status: stt,
+				Basis: "host.LastSeen = now in the block of host.MACEntry.LastSeen = now", Detail: det})
+		})
+	}
 	// the host that purge hands to makeOffline goes offline whatever else is the case: the store Online = false depends on
 	// no condition (a return in front of it "because nobody reads the notifications" leaves the host online for ever)
 	if mo := c.A.Method("", "Session", "makeOffline"); mo != nil {
@@ -695,6 +722,59 @@ func runC05(c *Ctx) {
 			r.Add(core.Obligation{Rule: "pairing", Key: "pairing purge deletion", Func: core.FuncName(pg), Status: core.Undecided, Detail: "no deleteHost call in purge"})
 		}
 	}
+	// the host list of a MAC entry is written through its backing array only by the table mutators: no append whose
+	// destination is (a re-slice of) MACEntry.HostList outside link / findOrCreateHostWithLock (a scratch slice made as
+	// HostList[:0] "to filter without allocating" overwrites the front of the list while it is being ranged over)
+	{
+		kga := core.NewKeyGen()
+		for _, fn := range c.P.ModuleFunctions() {
+			core.EachInstr(fn, func(i ssa.Instruction) {
+				call, ok := isBuiltinCall(i, "append")
+				if !ok || len(call.Call.Args) == 0 {
+					return
+				}
+				// where the destination's backing array comes from: through φ, earlier appends (their destination only) and re-slices
+				fromList := false
+				seenV := map[ssa.Value]bool{}
+				var origin func(v ssa.Value)
+				origin = func(v ssa.Value) {
+					if v == nil || seenV[v] {
+						return
+					}
+					seenV[v] = true
+					switch t := v.(type) {
+					case *ssa.Phi:
+						for _, e := range t.Edges {
+							origin(e)
+						}
+					case *ssa.Slice:
+						origin(t.X)
+					case *ssa.ChangeType:
+						origin(t.X)
+					case *ssa.Call:
+						if bi, isB := t.Call.Value.(*ssa.Builtin); isB && bi.Name() == "append" && len(t.Call.Args) > 0 {
+							origin(t.Call.Args[0])
+						}
+					case *ssa.UnOp:
+						if fa, isFA := t.X.(*ssa.FieldAddr); isFA && t.Op == token.MUL && fieldOwner(fa) == "packet.MACEntry.HostList" {
+							fromList = true
+						}
+					}
+				}
+				origin(call.Call.Args[0])
+				if !fromList {
+					return
+				}
+				st, det := core.Proved, ""
+				if fn.Name() != "link" && fn.Name() != "findOrCreateHostWithLock" && fn.Name() != "unlink" {
+					st = core.Violated
+					det = core.FuncName(fn) + " appends to a slice that shares the backing array of MACEntry.HostList (" + norm(call.Call.Args[0]) + "): the entries of the host list are overwritten outside the table mutators - a host is listed twice and another drops out of its MAC entry while it stays in the index"
+				}
+				r.Add(core.Obligation{Rule: "who-writes", Key: strings.TrimSuffix(kga.Key("who-writes "+core.FuncName(fn)+" appends into the host list"), "#0"), Func: core.FuncName(fn), Pos: c.P.Pos(core.PosOf(i)), Status: st,
+					Basis: "append with a destination derived from MACEntry.HostList only in link / unlink / findOrCreateHostWithLock", Detail: det})
+			})
+		}
+	}
 	// MAC entries are unique per address because findOrCreate looks before it appends - and the look-up examines every
 	// entry of the table: its loop is a range over the table, counts up from 0 while below len, or counts down from len-1
 	// while not below 0 (a loop that stops above index 0 never finds the first entry again, and a second entry is appended)
@@ -1209,6 +1289,39 @@ func runC06(c *Ctx) {
 			}
 			r.Add(core.Obligation{Rule: "frame-marked", Key: fmt.Sprintf("frame-marked Parse transition site %d", k+1), Func: core.FuncName(parse), Pos: c.P.Pos(core.PosOf(ins)), Status: st,
 				Basis: "frame.flags = markOnlineTransition() follows the transition on every path", Detail: "after onlineTransition the frame is not marked with markOnlineTransition(): notify will not emit the offline notifications of the superseded addresses before the online one"})
+		}
+	}
+	// a pending notification is cancelled only by being delivered: Host.dirty is set to the constant true, or cleared (the
+	// constant false) where the snapshot for the notification is taken (notify, makeOffline) - never assigned a computed
+	// value (dirty = "the name changed" clears the flag an online transition has just set, and the transition is lost)
+	r.Rule("dirty-stores", "Host.dirty is set to true, or cleared at the notification snapshot - nothing else", 8)
+	{
+		kgd := core.NewKeyGen()
+		for _, fn := range c.P.ModuleFunctions() {
+			core.EachInstr(fn, func(i ssa.Instruction) {
+				st, ok := i.(*ssa.Store)
+				if !ok {
+					return
+				}
+				fa, ok := st.Addr.(*ssa.FieldAddr)
+				if !ok || fieldOwner(fa) != "packet.Host.dirty" {
+					return
+				}
+				if al, isAl := fa.X.(*ssa.Alloc); isAl && al.Comment == "complit" {
+					return
+				}
+				stt, det := core.Proved, ""
+				v, isC := constBool(st.Val)
+				switch {
+				case isC && v:
+				case isC && !v && (fn.Name() == "notify" || fn.Name() == "makeOffline"):
+				default:
+					stt = core.Violated
+					det = core.FuncName(fn) + " assigns " + norm(st.Val) + " to Host.dirty: when that is false a notification that was pending (an online transition made by the same frame) is cancelled without having been sent"
+				}
+				r.Add(core.Obligation{Rule: "dirty-stores", Key: strings.TrimSuffix(kgd.Key("dirty-stores "+core.FuncName(fn)), "#0"), Func: core.FuncName(fn), Pos: c.P.Pos(core.PosOf(i)), Status: stt,
+					Basis: "constant true, or constant false in notify / makeOffline", Detail: det})
+			})
 		}
 	}
 	// what a notification says about the station is what is tracked for the station: every name field and the router flag
